@@ -3,6 +3,7 @@ import ClipVerif.Model.Trim
 import ClipVerif.Model.Simplify
 import ClipVerif.Model.PIP
 import ClipVerif.Model.Lists
+import ClipVerif.Model.Wind
 /-
 Correspondence side of the line protocol: `model <name> …` evaluates a hand model, `gen <fn> …`
 evaluates a generated function; both print the result in a canonical form that the harness
@@ -21,6 +22,14 @@ def showPaths (ls : List (List Point64)) : String :=
   " ".intercalate ((toString ls.length) :: ls.map showPath)
 
 def b (x : Bool) : String := if x then "1" else "0"
+
+/-- edges as groups of five integers: windDx windCount windCount2 polyType isOpen -/
+def takeEdges : Toks → Option (List Active)
+  | [] => some []
+  | dx :: wc :: wc2 :: pt :: op :: rest =>
+    (takeEdges rest).map (fun l =>
+      ({ windDx := dx, windCount := wc, windCount2 := wc2, localMin := { PolyType := pt.toNat, IsOpen := op != 0 } } : Active) :: l)
+  | _ => none
 
 def model (name : String) (ts : Toks) : String :=
   match name, ts with
@@ -49,6 +58,22 @@ def model (name : String) (ts : Toks) : String :=
         | .error f => s!"fault {repr f}"
       | _ => "parse-error"
     | none => "parse-error"
+  | "windc", fr :: rest =>
+    match takeEdges rest with
+    | some es =>
+      match es.reverse with
+      | e :: leftRev =>
+        let r := if Gen.isOpen e then Model.setWindCountOpen fr.toNat leftRev.reverse e
+                 else Model.setWindCountClosed fr.toNat leftRev.reverse e
+        s!"{r.windCount} {r.windCount2}"
+      | [] => "parse-error"
+    | none => "parse-error"
+  | "windx", fr :: rest =>
+    match takeEdges rest with
+    | some [e1, e2] =>
+      let r := Model.intersectWind fr.toNat e1 e2
+      s!"{r.1.windCount} {r.1.windCount2} {r.2.windCount} {r.2.windCount2}"
+    | _ => "parse-error"
   | _, _ => "parse-error model"
 
 def i64 (i : Int) : Int64 := Int64.ofInt i
